@@ -5,7 +5,7 @@ import Qryn.Ingest.Faults
     `c05stale` → `-` or `key|group,key|group,…` (functions whose body hash differs from the placement's)
     A document is a tree of naturals written with `(` `)` as separate tokens. -/
 namespace Driver.C05
-open Qryn.Ingest
+open Qryn.IngestFaults
 
 inductive Tree | n (v : Nat) | l (xs : List Tree)
 
